@@ -17,6 +17,12 @@ def m_writer(ex, p, call, k):
 
 
 def m_ser(ex, p, call, k):
+    if len(call.args) == 1:
+        # bincode::serialize(&value) -> Result<Vec<u8>>: same default options (fixed-int, little-endian) as serialize_into
+        v = ex.deref(p, call.args[0])
+        p.events.append(Event('ser', call.short, (v,), None, call.span, call.depth))
+        buf = Sym('serialized-buffer', 'Vec<u8>').with_ov('value', v).with_ov('base', Sym('new()', 'Vec<u8>'))
+        return k(p, Sym(f'ser_result{p.seq("ser")}', call.retty).with_ov(('v', 'Ok', 0), buf))
     w, v = call.args[0], ex.deref(p, call.args[1])
     buf = w.fields[0] if isinstance(w, Agg) and w.name == 'Writer' else None
     if isinstance(buf, Ptr):
@@ -29,6 +35,12 @@ def m_ser(ex, p, call, k):
         ex.store(p, tgt, Sym('serialized-buffer', 'BytesMut').with_ov('value', v).with_ov('base', cur if isinstance(cur, Sym) else Sym('?')))
     p.events.append(Event('ser', call.short, (v,), None, call.span, call.depth))
     k(p, Sym(f'ser_result{p.seq("ser")}', call.retty))
+
+
+def m_bytes_from(ex, p, call, k):
+    """Bytes::from(Vec<u8>) / BytesMut -> Bytes conversions keep the content"""
+    v = call.args[0]
+    k(p, Sym(f'freeze({vname(v)})', 'Bytes').with_ov('src', v))
 
 
 def m_freeze(ex, p, call, k):
@@ -68,13 +80,13 @@ def m_get_mut(ex, p, call, k):
     k(p, Ptr(('H', f'io({vname(s)})', ''), (), True))
 
 
-MODELS = [(r'BufMut>::writer$', m_writer), (r'(^|::)serialize(_into)?$', m_ser), (r'BytesMut::freeze$', m_freeze), (r'SinkExt>::send$', m_send),
+MODELS = [(r'BufMut>::writer$', m_writer), (r'<(bytes::)?Bytes as From>::from$|<(\w+::)*(Vec|BytesMut) as Into>::into$', m_bytes_from), (r'(^|::)serialize(_into)?$', m_ser), (r'BytesMut::freeze$', m_freeze), (r'SinkExt>::send$', m_send),
           (r'StreamExt>::next$', m_next), (r'(^|::)deserialize(_from)?$', m_deser), (r'(^|::)write_version_frame$', m_wv),
           (r'(^|::)read_version_frame$', m_rv), (r'Framed(Read|Write)::get_mut$', m_get_mut)]
 
 
 def run(fname):
-    ex = e2.executor('anemo', MODELS, max_depth=3)
+    ex = e2.executor('anemo', MODELS, max_depth=6)
     fn = find_fn(ex.prog, r'^%s::\{closure#0\}$' % fname)
     p, args = coroutine_start(ex, fn)
     res = ex.run(fn, args, p)
@@ -126,8 +138,8 @@ def ob_write(report, kind):
                 return viol(ob, ex, f'{fname}: preamble and frames do not go to the same stream', f'{fname}-stream', r, len(res))
             if vname(wv.args[1]) != f'{head}.{hf.index("version")}':
                 return viol(ob, ex, f'{fname}: preamble carries {vrepr(wv.args[1])}, not the message\'s version', f'{fname}-version', r, len(res))
-            if ser.name != 'bincode::serialize_into':
-                return viol(ob, ex, f'{fname}: header serialized with `{ser.name}`, not bincode::serialize_into (fixed-int little-endian layout)', f'{fname}-serializer', r, len(res))
+            if ser.name not in ('bincode::serialize_into', 'bincode::serialize'):
+                return viol(ob, ex, f'{fname}: header serialized with `{ser.name}`, not bincode::serialize_into / bincode::serialize (default options: fixed-int little-endian layout)', f'{fname}-serializer', r, len(res))
             raw = ser.args[0]
             if not (isinstance(raw, Agg) and raw.name == Raw and len(raw.fields) == len(rf)):
                 return viol(ob, ex, f'{fname}: serialized value is {vrepr(raw)}, not a {Raw}', f'{fname}-raw', r, len(res))
@@ -153,7 +165,7 @@ def ob_write(report, kind):
             return ob.done([ex], 'inconclusive', 'vacuity: no successful path', paths=len(res))
         ob.done([ex], 'held', '', {'success_paths': n_ok, 'paths': len(res), 'example': path_summary([r for r in res if is_ready_ok(r)][0], 20)}, paths=len(res))
     return guarded(report, f'{fname}_structure', f'{fname}: version preamble, then one frame = bincode::serialize_into of {Raw}{{{"route" if kind == "request" else "status"}, headers}} '
-                   'built from the message, then one frame = the body; same stream; nothing else', [fname, f'{Raw}::from_header'], {'inline_depth': 3}, body)
+                   'built from the message, then one frame = the body; same stream; nothing else', [fname, f'{Raw}::from_header'], {'inline_depth': 6}, body)
 
 
 def ob_read(report, kind):
@@ -204,7 +216,7 @@ def ob_read(report, kind):
             rawv = 'deser@Ok.0'
             okh = (isinstance(head, Agg) and vname(head.fields[hf.index('version')]) == 'poll(rv_future)#1@Ok.0'
                    and vname(head.fields[hf.index('headers')]) == f'{rawv}.{rf.index("headers")}'
-                   and vname(head.fields[hf.index('extensions')]).startswith('default('))
+                   and re.match(r'(default|new)\(\)', vname(head.fields[hf.index('extensions')])) is not None)   # Extensions::default() / Extensions::new(): fresh, empty
             if kind == 'request':
                 okh = okh and vname(head.fields[hf.index('route')]) == f'{rawv}.{rf.index("route")}'
             else:
@@ -222,7 +234,7 @@ def ob_read(report, kind):
         ob.done([ex], 'held', '', {'success_paths': n_ok, 'error_paths': n_err, 'paths': len(res)}, paths=len(res))
     return guarded(report, f'{fname}_structure', f'{fname}: Ok only if preamble, header frame, bincode::deserialize, '
                    + ('status code, ' if kind == 'response' else '') + 'and body frame all succeeded (end of stream at any point is an error); message = (decoded header fields, preamble version, fresh extensions, second frame)',
-                   [fname, f'{Hdr}::from_raw', f'{Msg}::from_parts'] + (['StatusCode::new'] if kind == 'response' else []), {'inline_depth': 3}, body)
+                   [fname, f'{Hdr}::from_raw', f'{Msg}::from_parts'] + (['StatusCode::new'] if kind == 'response' else []), {'inline_depth': 6}, body)
 
 
 def _eqform(x):
